@@ -206,6 +206,13 @@ func (c *Conn) isClosed() bool {
 	return c.state.Is(connStatusClosed)
 }
 
+// currentWireConn returns the current wire connection. reconnect replaces it under wireConnMu.
+func (c *Conn) currentWireConn() *wire.ClientConn {
+	c.wireConnMu.Lock()
+	defer c.wireConnMu.Unlock()
+	return c.wireConn
+}
+
 func (c *Conn) registerUpstream(up *Upstream) error {
 	ctx := context.Background()
 	c.upstreamMu.Lock()
@@ -302,7 +309,8 @@ func (c *Conn) OpenUpstream(ctx context.Context, sessionID string, opts ...Upstr
 	}
 
 	c.wireConnMu.Lock()
-	ch, err := c.wireConn.SubscribeUpstreamChunkAck(ctx, resp.AssignedStreamIDAlias)
+	wireConn := c.wireConn
+	ch, err := wireConn.SubscribeUpstreamChunkAck(ctx, resp.AssignedStreamIDAlias)
 	c.wireConnMu.Unlock()
 	if err != nil {
 		return nil, errors.Errorf("failed to SubscribeUpstreamChunkAck: %w", err)
@@ -322,7 +330,7 @@ func (c *Conn) OpenUpstream(ctx context.Context, sessionID string, opts ...Upstr
 		revDataIDAliases: revDataIDAliases,
 		ServerTime:       resp.ServerTime,
 		idAlias:          resp.AssignedStreamIDAlias,
-		wireConn:         c.wireConn,
+		wireConn:         wireConn,
 		sequence:         newSequenceNumberGenerator(0),
 		logger:           c.logger,
 
@@ -380,7 +388,7 @@ func (c *Conn) OpenUpstream(ctx context.Context, sessionID string, opts ...Upstr
 					return
 				}
 
-				if err := u.resume(c.wireConn); err != nil {
+				if err := u.resume(c.currentWireConn()); err != nil {
 					u.logger.Errorf(ctx, "failed to resume upstream: %+v", err)
 					return
 				}
@@ -441,7 +449,7 @@ func (c *Conn) OpenDownstream(ctx context.Context, filters []*message.Downstream
 			return errors.Errorf("failed subscribeDownstreamMetadata: %w", err)
 		}
 
-		resp, err = c.wireConn.SendDownstreamOpenRequest(ctx, &message.DownstreamOpenRequest{
+		resp, err = c.currentWireConn().SendDownstreamOpenRequest(ctx, &message.DownstreamOpenRequest{
 			DesiredStreamIDAlias: alias,
 			DownstreamFilters:    filters,
 			DataIDAliases:        aliases,
@@ -479,7 +487,7 @@ func (c *Conn) OpenDownstream(ctx context.Context, filters []*message.Downstream
 		lastIssuedUpstreamInfoAlias: 0,
 		lastIssuedAckSequenceNumber: 0,
 		ServerTime:                  resp.ServerTime,
-		wireConn:                    c.wireConn,
+		wireConn:                    c.currentWireConn(),
 		idAlias:                     alias,
 		dpsCh:                       dpsCh,
 		ackCompCh:                   ackCompCh,
@@ -808,7 +816,7 @@ func (c *Conn) readDownstreamCallLoop(ctx context.Context) error {
 }
 
 func (c *Conn) subscribeDownstreamMetadata(ctx context.Context, alias uint32, filters []*message.DownstreamFilter) (<-chan *message.DownstreamMetadata, error) {
-	wireConn := c.wireConn
+	wireConn := c.currentWireConn()
 	orDone := func(inCh <-chan *message.DownstreamMetadata) <-chan *message.DownstreamMetadata {
 		resCh := make(chan *message.DownstreamMetadata)
 		go func() {
